@@ -6,7 +6,7 @@
 From Coq Require Import List NArith ZArith Bool String Sorted.
 From Verif Require Import Lib.Utf8 Jsonx.Lex Jsonx.Tok Jsonx.GoStr Jsonx.Parse Jsonx.Json
   Jsonx.Encode Jsonx.Script Jsonx.LexProofs Jsonx.ParseProofs Jsonx.Term Jsonx.Balance Jsonx.Seen Jsonx.ScriptProofs
-  Jsonx.Pos Jsonx.TermLegacy
+  Jsonx.Trunc Jsonx.Pos Jsonx.TermLegacy
   Jsonx.GenTypes Gen.JsonxConsts Jsonx.ConstsGen.
 Import ListNotations.
 Local Open Scope N_scope.
@@ -183,6 +183,59 @@ Theorem C08_lex_error_rejected_series :
 Proof. exact (fun F pf ff => lex_error_rejected_series pf ff). Qed.
 Print Assumptions C08_lex_error_rejected_series.
 
+(** End to end, read off the tokens of the whole input: a string token whose
+    literal does not end with its closing quote, a raw string token that does
+    not end with its back quote, a block comment that does not end with "*/"
+    - which is what an input cut inside such a construct ends with - makes
+    Unmarshal and DecodeSeries fail. *)
+Theorem C08_truncated_rejected_unmarshal :
+  forall (F : Type) (pf : list N -> option F) (ff : F -> list N) input raw t e txt,
+  jsonx_raw_tokens input = Ok raw -> In (t, e) raw ->
+  (tty t = TString /\ exists l, tlit t = 34 :: l /\ forall l', l <> l' ++ [34]) \/
+  (tty t = TString /\ exists l, tlit t = 96 :: l /\ forall l', l <> l' ++ [96]) \/
+  (tty t = TComment /\ exists l, tlit t = 47 :: 42 :: l /\ forall l', l <> l' ++ [47]) ->
+  unmarshal pf ff input <> Ok (UOk txt).
+Proof. exact (fun F pf ff => truncated_rejected_unmarshal pf ff). Qed.
+Print Assumptions C08_truncated_rejected_unmarshal.
+
+Theorem C08_truncated_rejected_series :
+  forall (F : Type) (pf : list N -> option F) (ff : F -> list N) tm input raw t e res,
+  jsonx_raw_tokens input = Ok raw -> In (t, e) raw ->
+  (tty t = TString /\ exists l, tlit t = 34 :: l /\ forall l', l <> l' ++ [34]) \/
+  (tty t = TString /\ exists l, tlit t = 96 :: l /\ forall l', l <> l' ++ [96]) \/
+  (tty t = TComment /\ exists l, tlit t = 47 :: 42 :: l /\ forall l', l <> l' ++ [47]) ->
+  decode_series pf ff tm input <> Ok (Some res, []).
+Proof. exact (fun F pf ff => truncated_rejected_series pf ff). Qed.
+Print Assumptions C08_truncated_rejected_series.
+
+(** strtoken.Parse: a lexing error in any token - an unterminated quote in
+    particular - makes the call fail with at least one error. *)
+Theorem C08_shell_lex_error_rejected : forall input raw t e,
+  shell_raw_tokens input = Ok raw -> In (t, e) raw -> e <> [] ->
+  exists e0 es, shell_parse input = Ok (None, e0 :: es).
+Proof. exact shell_lex_error_rejected. Qed.
+Print Assumptions C08_shell_lex_error_rejected.
+
+Theorem C08_shell_unterminated_quote_rejected : forall input raw t e l,
+  shell_raw_tokens input = Ok raw -> In (t, e) raw ->
+  tty t = TString -> tlit t = 34 :: l -> (forall l', l <> l' ++ [34]) ->
+  exists e0 es, shell_parse input = Ok (None, e0 :: es).
+Proof. exact shell_unterminated_quote_rejected. Qed.
+Print Assumptions C08_shell_unterminated_quote_rejected.
+
+(** For every BYTE string - Go's decoding (an undecodable byte is U+FFFD)
+    comes first - every entry point returns: ToJSON, Unmarshal, DecodeSeries,
+    one Decoder under any sequence of calls, strtoken.Parse. *)
+Theorem C08_every_byte_string :
+  forall (F : Type) (pf : list N -> option F) (ff : F -> list N) (bytes : list N) tm ops,
+  (exists r, to_json pf ff (utf8_decode bytes) = Ok r /\ value_or_error r) /\
+  (exists r, unmarshal pf ff (utf8_decode bytes) = Ok r) /\
+  (exists r, decode_series pf ff tm (utf8_decode bytes) = Ok r /\ value_or_error r) /\
+  (exists l, script pf ff tm (utf8_decode bytes) ops = Ok l /\ List.length l = List.length ops /\ Forall sres_seen l) /\
+  (exists r, shell_parse (utf8_decode bytes) = Ok r /\ value_or_error r).
+Proof. exact (fun F pf ff => every_byte_string pf ff). Qed.
+Print Assumptions C08_every_byte_string.
+
 (** ... and a document in which a bracket is left open (more "{" "[" than
     "}" "]" among the tokens the parser receives), or closed once too often,
     is accepted neither by Unmarshal nor by DecodeSeries. *)
@@ -353,6 +406,19 @@ Example C08_unterminated_example :
 Proof.
   eexists _, _, _. split; [vm_compute; reflexivity|].
   split; [right; right; right; left; reflexivity|]. split; [discriminate|vm_compute; reflexivity].
+Qed.
+
+(** The five runes { a : double-quote x, an input cut inside a string: the
+    last token is a string that does not end with a quote; the hypothesis of
+    the end-to-end theorem holds. *)
+Example C08_truncated_example :
+  exists raw t e, jsonx_raw_tokens [123; 97; 58; 34; 120] = Ok raw /\ In (t, e) raw /\
+    tty t = TString /\ tlit t = [34; 120] /\ (forall l', [120] <> l' ++ [34]).
+Proof.
+  eexists _, _, _. split; [vm_compute; reflexivity|].
+  split; [right; right; right; left; reflexivity|]. repeat split.
+  intros l' H. assert (Hl : List.last [120] 0 = List.last (l' ++ [34]) 0) by now rewrite <- H.
+  rewrite last_last in Hl. discriminate.
 Qed.
 
 (** The comment that used to be dropped: "1;/*". *)
